@@ -9,19 +9,21 @@
   either the `FileReport` produced by `Linter.check` or, when `Sourcefile.from_file`/a rule raises, the
   error report built by `Reporter.add_file_error` (`ρ` is abstract: "report ⊕ error").
   `ok r` is the Boolean `check_and_fix_file` returns (summed into `checked_count`).
-* `handlers` — for every handler `h` of the `Reporter`, the function `handle : ρ → β`
-  (`DefaultHandler.handle`, `ViolationFileHandler.handle`, `JunitXmlHandler.handle` …).
-* `Reporter.add_file_report` appends `handler.handle(file_report)` to the list of **every** handler
-  (`for handler, reports in self.handlers_reports.items(): reports.append(…)`); in the parallel path the
-  lists are `manager.list()` proxies shared by the workers, so the order of the entries is the order in
-  which workers get there.
+* `nh` handlers; `handle k : ρ → β` is `handler_k.handle` (`DefaultHandler.handle`,
+  `ViolationFileHandler.handle`, `JunitXmlHandler.handle` …).
+* `Reporter.add_file_report` runs `for handler, reports in self.handlers_reports.items():
+  reports.append(handler.handle(file_report))`: **one append per handler, one after the other**.  In the
+  parallel path the lists are `manager.list()` proxies shared by the workers, so the appends of different
+  files interleave and two handler lists may end up in different orders.  The model therefore gives every
+  running file a counter `pc` (handlers already served): `append i pc` appends to the list of handler
+  `pc` only.
 
-Transition system: `start i` takes any pending file while fewer than `w` jobs run, `finish i` appends
-`h (lint i)` to the list of every handler.  Any interleaving is a run.  The serial path
-(`max_workers == 1`: `for path in files: check_and_fix_file(path, …)`) is the run
-`start f₁, finish f₁, start f₂, …`.
+Transition system: `start i` takes any pending file while fewer than `w` jobs run; `append i pc`;
+`finish i` when all `nh` handlers are served (the future completes, `checked_count += result`).  Any
+interleaving is a run.  The serial path (`max_workers == 1`: `for path in files: check_and_fix_file(…)`)
+is the run `start f, append f 0 … append f (nh-1), finish f` for each file in turn.
 
-`acceptFifo` is the trace validator the driver applies to an observed completion order: jobs are
+`acceptEvents` is the trace validator the driver applies to the observed per-handler orders: jobs are
 *started* in submission order (the executor's call queue is FIFO), at most `w` at a time.
 Core Lean only.
 -/
@@ -31,44 +33,66 @@ structure Cfg (ρ β : Type) where
   files : List Nat
   lint : Nat → ρ
   ok : ρ → Bool
-  handlers : List (ρ → β)
+  nh : Nat
+  handle : Nat → ρ → β
   w : Nat
 
 inductive Ev where
   | start (i : Nat)
+  | append (i pc : Nat)
   | finish (i : Nat)
 deriving Repr, DecidableEq
 
 structure State (β : Type) where
   pending : List Nat
-  running : List Nat
-  /-- completion order -/
+  /-- (file, number of handlers already served) -/
+  running : List (Nat × Nat)
+  /-- order in which the jobs completed -/
   done : List Nat
-  /-- `handlers_reports`: one list per handler -/
-  outs : List (List β)
+  /-- per handler: the files appended so far, in list order -/
+  apps : Nat → List Nat
+  /-- `handlers_reports`: per handler the list of `handle` results -/
+  outs : Nat → List β
   /-- `checked_count` -/
   count : Nat
 
 variable {ρ β : Type}
 
 def init (c : Cfg ρ β) : State β :=
-  { pending := c.files, running := [], done := [], outs := c.handlers.map (fun _ => []), count := 0 }
+  { pending := c.files, running := [], done := [], apps := fun _ => [], outs := fun _ => [], count := 0 }
 
-/-- `Reporter.add_file_report` -/
-def addReport (hs : List (ρ → β)) (outs : List (List β)) (r : ρ) : List (List β) :=
-  List.zipWith (fun h l => l ++ [h r]) hs outs
+def upd {α : Type} (f : Nat → α) (k : Nat) (v : α) : Nat → α := fun j => if j = k then v else f j
 
 def step (c : Cfg ρ β) (s : State β) : Ev → Option (State β)
   | .start i =>
     if s.pending.contains i && decide (s.running.length < c.w) then
-      some { s with pending := s.pending.erase i, running := s.running ++ [i] }
+      some { s with pending := s.pending.erase i, running := s.running ++ [(i, 0)] }
+    else none
+  | .append i pc =>
+    if s.running.contains (i, pc) && decide (pc < c.nh) then
+      some { s with running := s.running.erase (i, pc) ++ [(i, pc + 1)],
+                    apps := upd s.apps pc (s.apps pc ++ [i]),
+                    outs := upd s.outs pc (s.outs pc ++ [c.handle pc (c.lint i)]) }
     else none
   | .finish i =>
-    if s.running.contains i then
-      some { s with running := s.running.erase i, done := s.done ++ [i],
-                    outs := addReport c.handlers s.outs (c.lint i),
+    if s.running.contains (i, c.nh) then
+      some { s with running := s.running.erase (i, c.nh), done := s.done ++ [i],
                     count := s.count + (if c.ok (c.lint i) then 1 else 0) }
     else none
+
+/-- Class of the one defect of the unchanged code the check exhibits.  It concerns *what reaches the
+disk*, not the handler lists: in the parallel path (`max_workers > 1`) `Reporter.output` runs on handler
+**copies** unpickled from the manager dict; the `LazyTextfile` behind such a copy is never closed
+explicitly, only by its `__del__` when the copy is garbage collected or at interpreter shutdown, where
+the finalisation order of the text wrapper and its buffer is undefined — the violations file of a
+stand-alone `lint_files(max_workers=2)` run is empty after the process has exited.  The serial path
+(`max_workers = 1`) closes the files when `lint_files` returns. -/
+def KnownOutputLost (w : Nat) : Bool := decide (1 < w)
+
+/-- what is guaranteed to be on disk for handler `k` once the run is over: the handler list in the
+serial path, nothing in the parallel path (`none` = unspecified, observed empty) -/
+def onDisk (c : Cfg ρ β) (s : State β) (k : Nat) : Option (List β) :=
+  if KnownOutputLost c.w then none else some (s.outs k)
 
 def isFinal (s : State β) : Bool := s.pending.isEmpty && s.running.isEmpty
 
@@ -83,32 +107,55 @@ def replay (c : Cfg ρ β) (s : State β) : List Ev → Option (State β)
     | some s' => replay c s' es
     | none => none
 
+/-- `add_file_report` for one file: one append per handler, in handler order -/
+def appendsFrom (f : Nat) : Nat → Nat → List Ev
+  | _, 0 => []
+  | pc, n + 1 => .append f pc :: appendsFrom f (pc + 1) n
+
 /-- the serial loop `for path in files: check_and_fix_file(path, linter)` as an event list -/
-def serialEvents : List Nat → List Ev
+def serialEvents (nh : Nat) : List Nat → List Ev
   | [] => []
-  | f :: fs => .start f :: .finish f :: serialEvents fs
+  | f :: fs => .start f :: (appendsFrom f 0 nh ++ .finish f :: serialEvents nh fs)
 
-/-- what the serial loop leaves in the list of handler `h` -/
-def serialOut (c : Cfg ρ β) (h : ρ → β) : List β := c.files.map (fun f => h (c.lint f))
+/-- what the serial loop leaves in the list of handler `k` -/
+def serialOut (c : Cfg ρ β) (k : Nat) : List β := c.files.map (fun f => c.handle k (c.lint f))
 
-/-- FIFO-start trace validator: given the observed completion order, start pending jobs in submission
-order only when needed (and allowed by `w`); returns the event list of the run it found -/
-def fifoGo (w : Nat) : Nat → List Nat → List Nat → List Nat → Option (List Ev)
-  | _, [], [], [] => some []
-  | _, _, _, [] => none
+/-! ### trace validator (driver side; its answer is re-checked by `replay`) -/
+
+def pcOf (running : List (Nat × Nat)) (i : Nat) : Option Nat :=
+  (running.find? (fun p => p.1 == i)).map (·.2)
+
+/-- first handler whose next expected file can be served now: returns `(k, i)` -/
+def nextAppend (running : List (Nat × Nat)) : Nat → List (List Nat) → Option (Nat × Nat)
+  | _, [] => none
+  | k, [] :: rest => nextAppend running (k + 1) rest
+  | k, (i :: _) :: rest => if pcOf running i == some k then some (k, i) else nextAppend running (k + 1) rest
+
+def dropHead (k : Nat) : List (List Nat) → List (List Nat)
+  | [] => []
+  | l :: rest => if k = 0 then l.tail :: rest else l :: dropHead (k - 1) rest
+
+/-- greedy schedule for the observed per-handler orders `rem` (FIFO starts, finish as soon as all
+handlers are served) -/
+def acceptGo (nh w : Nat) : Nat → List Nat → List (Nat × Nat) → List (List Nat) → Option (List Ev)
   | 0, _, _, _ => none
-  | fuel + 1, pending, running, f :: order =>
-    if running.contains f then
-      (fifoGo w fuel pending (running.erase f) order).map (fun es => Ev.finish f :: es)
-    else
-      match pending with
-      | [] => none
-      | p :: ps =>
-        if running.length < w then
-          (fifoGo w fuel ps (running ++ [p]) (f :: order)).map (fun es => Ev.start p :: es)
-        else none
+  | fuel + 1, pending, running, rem =>
+    match running.find? (fun p => p.2 == nh) with
+    | some (i, _) => (acceptGo nh w fuel pending (running.erase (i, nh)) rem).map (fun es => Ev.finish i :: es)
+    | none =>
+      match nextAppend running 0 rem with
+      | some (k, i) =>
+        (acceptGo nh w fuel pending (running.erase (i, k) ++ [(i, k + 1)]) (dropHead k rem)).map
+          (fun es => Ev.append i k :: es)
+      | none =>
+        match pending with
+        | p :: ps =>
+          if running.length < w then
+            (acceptGo nh w fuel ps (running ++ [(p, 0)]) rem).map (fun es => Ev.start p :: es)
+          else none
+        | [] => if running.isEmpty && rem.all List.isEmpty then some [] else none
 
-def fifoEvents (files : List Nat) (w : Nat) (order : List Nat) : Option (List Ev) :=
-  fifoGo w (2 * files.length + 2 * order.length + 1) files [] order
+def acceptEvents (files : List Nat) (nh w : Nat) (orders : List (List Nat)) : Option (List Ev) :=
+  acceptGo nh w ((nh + 2) * files.length + 2) files [] orders
 
 end LokiModel.C42
